@@ -296,6 +296,14 @@ func Verif_c10_prefix() {
 	verifAssume(err == nil)
 	for i := 0; i < len(src)-1; i++ {
 		if src[i] == '\n' {
+			// a newline taken by a line continuation does not end a line
+			nbs := 0
+			for k := i - 1; k >= 0 && src[k] == '\\'; k-- {
+				nbs++
+			}
+			if nbs%2 == 1 {
+				continue
+			}
 			_, perr := NewParser(Variant(lang)).Parse(bytes.NewReader(src[:i+1]), "")
 			verifAssert(perr == nil || IsIncomplete(perr), "prefix cut at a newline fails without being incomplete")
 			verifReach("cut")
